@@ -491,7 +491,7 @@ func TestC08(t *testing.T) {
 	}
 
 	rng := r.Rand("tasklists")
-	n := r.N(4000, 60000)
+	n := r.N(4000, 50000)
 	reps := 3
 	for i := 0; i < n && r.Violations() < 20 && deadlocks < 3; i++ {
 		c := c08Gen(rng)
